@@ -1080,6 +1080,60 @@ def server_startup(w):
 
 # ---------------------------------------------------------------------------------------------- pie client
 @atom(layer='client')
+def client_io_failures(w):
+    """Client-side I/O failures at every stage (send, partial send, receive, partial receive, peer closes, close; the
+    connect stage is in client_ops) for every client operation that carries secrets - key material, secret data,
+    plaintext, ciphertext, salts - with a password credential in every request header."""
+    import socket
+    import ssl
+    from kmip.pie import objects as pobj
+    from kmip.services.kmip_protocol import KMIPProtocol
+    pw = w.can.new('password', 20, text=True).decode()
+    cl = HH.make_client(w, username='alice', password=pw)
+    C = HH.client_call
+    key = w.can.new('key-material:client-io', 32)
+    uid = C(w, 'register', cl.register, pobj.SymmetricKey(ALG.AES, 256, key, masks=list(ALLMASK)))
+    C(w, 'activate', cl.activate, uid)
+    sd = w.can.new('secret-data', 24)
+    sid = C(w, 'register secret', cl.register, pobj.SecretData(sd, E.SecretDataType.PASSWORD, masks=[MASK.DERIVE_KEY]))
+    pt, iv, salt = w.can.new('plaintext', 48), w.can.new('iv', 16), w.can.new('salt', 16)
+    cp_ = {'cryptographic_algorithm': ALG.AES, 'block_cipher_mode': E.BlockCipherMode.CBC, 'padding_method': E.PaddingMethod.PKCS5}
+    r = C(w, 'encrypt', cl.encrypt, pt, uid=uid, cryptographic_parameters=cp_, iv_counter_nonce=iv)
+    ct = r[0] if r else pt
+    ops = [('register-key', lambda: cl.register(pobj.SymmetricKey(ALG.AES, 256, w.can.new('key-material:client-io', 32), masks=[MASK.ENCRYPT]))),
+           ('register-secret-data', lambda: cl.register(pobj.SecretData(w.can.new('secret-data', 24), E.SecretDataType.PASSWORD))),
+           ('register-opaque', lambda: cl.register(pobj.OpaqueObject(w.can.new('object-value:OPAQUE_DATA', 24), E.OpaqueDataType.NONE))),
+           ('get-key', lambda: cl.get(uid)), ('get-secret-data', lambda: cl.get(sid)),
+           ('encrypt', lambda: cl.encrypt(pt, uid=uid, cryptographic_parameters=cp_, iv_counter_nonce=iv)),
+           ('decrypt', lambda: cl.decrypt(ct, uid=uid, cryptographic_parameters=cp_, iv_counter_nonce=iv)),
+           ('mac', lambda: cl.mac(pt, uid, ALG.HMAC_SHA256)),
+           ('sign', lambda: cl.sign(pt, uid=uid, cryptographic_parameters={'cryptographic_algorithm': ALG.RSA, 'padding_method': E.PaddingMethod.PSS,
+                                                                          'hashing_algorithm': E.HashingAlgorithm.SHA_256})),
+           ('derive_key', lambda: cl.derive_key(OT.SYMMETRIC_KEY, [uid], E.DerivationMethod.PBKDF2,
+                                                {'cryptographic_parameters': {'hashing_algorithm': E.HashingAlgorithm.SHA_256}, 'salt': salt, 'iteration_count': 3},
+                                                cryptographic_length=128, cryptographic_algorithm=ALG.AES)),
+           ('create', lambda: cl.create(ALG.AES, 128)), ('get_attributes', lambda: cl.get_attributes(uid)), ('locate', lambda: cl.locate()),
+           ('proxy-get', lambda: cl.proxy.get(uid))]
+    faults = [('send', BrokenPipeError(32, 'Broken pipe'), 0), ('send', ConnectionResetError(104, 'Connection reset by peer'), 0),
+              ('send', socket.timeout('timed out'), 0), ('send', ssl.SSLError(1, 'bad record mac (scripted)'), 0),
+              ('send-partial', BrokenPipeError(32, 'Broken pipe'), 8), ('send-partial', ConnectionResetError(104, 'Connection reset by peer'), 120),
+              ('recv', ConnectionResetError(104, 'Connection reset by peer'), 0), ('recv', socket.timeout('timed out'), 0),
+              ('recv-partial', ConnectionResetError(104, 'Connection reset by peer'), 8), ('recv-partial', socket.timeout('timed out'), 100),
+              ('recv-eof', None, 0), ('recv-eof', None, 60)]
+    for oname, fn in ops:
+        for stage, exc, at in faults:
+            sock = HH.FaultySocket(w, stage, exc, at)
+            cl.proxy.protocol = KMIPProtocol(sock)
+            cl.proxy.socket = sock
+            C(w, '%s io:%s:%s@%d' % (oname, stage, type(exc).__name__ if exc else 'eof', at), fn)
+    for exc in (OSError(107, 'Transport endpoint is not connected'), ssl.SSLError(1, 'shutdown while in init (scripted)')):
+        cl2 = HH.make_client(w, username='alice', password=pw)
+        cl2.proxy.socket = HH.FaultySocket(w, 'close', exc)
+        C(w, 'close io:close:%s' % type(exc).__name__, cl2.close)
+    cl.proxy.socket = None
+
+
+@atom(layer='client')
 def client_config_files(w):
     """KMIPProxy and ProxyKmipClient built from temporary pykmip.conf files whose password carries a canary together
     with ConfigParser metacharacters (no request is sent: reading the configuration is the whole history)."""
@@ -1242,6 +1296,7 @@ CURATED = [
     ('client-loopback', 'client', ['client_ops']),
     ('client-cut-responses', 'client', ['client_cut_responses']),
     ('client-config-files', 'client', ['client_config_files']),
+    ('client-io-failures', 'client', ['client_io_failures']),
     ('server-startup', 'server', ['server_startup']),
     ('engine-attributes-requests', 'engine', ['setup_keys', 'lifecycle_all_types', 'attribute_paths', 'request_level', 'restart_and_reuse', 'locate_query', 'monitor_and_config']),
 ]
